@@ -57,7 +57,13 @@ BAD_REC = error.BAD_RECORD_NUMBER
 BIG = 33554432          # 2^25
 FILES = (b'F.DAT', b'G.DAT')
 VARS = {1: (b'A$', b'B$'), 2: (b'C$', b'D$')}
-LAYOUTS = {'one': {1: 0}, 'diff': {1: 0, 2: 1}, 'same': {1: 0, 2: 0}, 'pre': {1: 0}}    # number -> file index
+LAYOUTS = {'one': {1: 0}, 'diff': {1: 0, 2: 1}, 'same': {1: 0, 2: 0}, 'pre': {1: 0}, 'bare': {1: 0}}    # number -> file index
+# layout 'bare': as 'one', with the FIELD variables written without their type sigil under DEFSTR A-D
+_BARE = [False]
+
+
+def _v(name):
+    return name[:-1] if _BARE[0] else name
 # layout 'pre': the file exists before it is opened and its size is not a multiple of the record length
 PRE_CONTENT = b'pqrstuv'
 
@@ -71,8 +77,8 @@ def _field_stmt(n, r, lay):
     w1, w2 = _widths(r)
     a, b = VARS[n]
     if lay == 0:
-        return b'FIELD#%d,%d AS %s,%d AS %s' % (n, w1, a, w2, b)
-    return b'FIELD#%d,%d AS %s,%d AS %s' % (n, w2, b, w1, a)
+        return b'FIELD#%d,%d AS %s,%d AS %s' % (n, w1, _v(a), w2, _v(b))
+    return b'FIELD#%d,%d AS %s,%d AS %s' % (n, w2, _v(b), w1, _v(a))
 
 
 def _attach(r, lay):
@@ -99,7 +105,7 @@ def _stmt(op, r, depth):
         return b'%s#%d,%d' % (word, n, rec)
     if k == 'S':
         n, var, just = op[1], op[2], op[3]
-        return b'%sSET %s="%s"' % (b'L' if just == 'L' else b'R', VARS[n][var], _letter(depth))
+        return b'%sSET %s="%s"' % (b'L' if just == 'L' else b'R', _v(VARS[n][var]), _letter(depth))
     if k == 'F':
         return _field_stmt(op[1], r, op[2])
     if k == 'C':
@@ -207,6 +213,7 @@ class ResetRefused(Exception):
 class Real(object):
     def __init__(self, layout, r):
         self.layout, self.r = layout, r
+        _BARE[0] = (layout == 'bare')
         self.scratch = H.Scratch()
         self.path = self.scratch.path
         self.s = H.new_session(devices={'C:': self.path}, current_device='C:')
@@ -232,6 +239,9 @@ class Real(object):
                 # the same statement worked when this session was new: something of the histories replayed
                 # since then has survived CLOSE / CLEAR and makes a plain OPEN / FIELD / CLEAR fail
                 raise ResetRefused(stmt, res)
+            if stmt.startswith(b'FIELD') and isinstance(res, int):
+                # the FIELD statement that opens every history is itself one of the statements under test
+                raise ResetRefused(stmt, res, 'fresh')
             raise CheckError('harness statement %r failed: %r' % (stmt, res))
 
     def open_stmt(self, n):
@@ -243,7 +253,7 @@ class Real(object):
         self.must(b'CLOSE')
         for f in os.listdir(self.path):
             os.remove(os.path.join(self.path, f))
-        self.must(b'CLEAR')
+        self.must(b'CLEAR:DEFSTR A-D' if self.layout == 'bare' else b'CLEAR')
         if self.layout == 'pre':
             with open(os.path.join(self.path, FILES[0].decode()), 'wb') as f:
                 f.write(PRE_CONTENT)
@@ -260,7 +270,7 @@ class Real(object):
             return res
         if op[0] == 'X':
             # CLEAR leaves files open; the FIELD variables are gone and are attached again at once
-            st = b'CLEAR' + b''.join(b':' + _field_stmt(n, self.r, self.lay[n]) for n in sorted(self.nums) if self.isopen[n])
+            st = (b'CLEAR:DEFSTR A-D' if self.layout == 'bare' else b'CLEAR') + b''.join(b':' + _field_stmt(n, self.r, self.lay[n]) for n in sorted(self.nums) if self.isopen[n])
             return self.run(st)
         res = self.run(_stmt(op, self.r, depth))
         if res is None and op[0] == 'F':
@@ -515,6 +525,12 @@ def _expand(hist, only_op=None):
             try:
                 model = _build(real, model0, ops)
             except ResetRefused as e:
+                if len(e.args) > 2:
+                    out.append((('reset',), None, [(
+                        'setup/statement-refused-in-a-fresh-session',
+                        'in a fresh session, after OPEN, the statement %r fails with error %r' % (e.args[0], e.args[1]))],
+                        '%s/setup:refused' % layout))
+                    break
                 out.append((cands[idx - 1] if cands and idx else ('reset',), None, [(
                     'reset/statement-refused-after-earlier-statements',
                     'after %r and CLOSE, deleting the files and CLEAR, the statement %r fails with error %r (it worked in the new session)' % (
@@ -577,6 +593,7 @@ def _cfgs(ctx):
             (('cfg', 'diff', 2, recs, ()), 4),
             (('cfg', 'same', 2, recs, ()), 4),
             (('cfg', 'pre', 4, (None, 1, 2, 3, 5), ()), 4),
+            (('cfg', 'bare', 2, (None, 1, 2), ()), 4),
             # record numbers with a fraction address the nearest record
             (('cfg', 'one', 2, (None, 1, '2.75', '1.4', '3.6#'), ('.4', '.25#')), 4),
         ]
@@ -592,6 +609,7 @@ def _cfgs(ctx):
         (('cfg', 'same', 128, (None, 1, 2, 5), ()), 4),
         (('cfg', 'pre', 4, (None, 1, 2, 3, 5), (0,)), 6),
         (('cfg', 'pre', 3, (None, 1, 2, 3, 4), ()), 5),
+        (('cfg', 'bare', 2, (None, 1, 2, 5), (0,)), 5),
         (('cfg', 'one', 2, (None, 1, 2, '2.75', '1.4', '3.6#', '4.5001'), ('.4', '.25#', '.0001', '33554436.6#')), 5),
     ]
 
